@@ -54,11 +54,18 @@ def toKind : String → RuleKind
   | "nonatomic" => .nonAtomic
   | _ => .normal
 
+/-- C20: `<b><o>` ↦ box_only_if_needed = b, pest_optimizer = o. -/
+def optsConfig (bits : String) : Config :=
+  let cs := bits.toList
+  { box_only_if_needed := cs[0]? == some '1', pest_optimizer := cs[1]? != some '0' }
+
 structure GrammarEntry where
   gid : String
   ng : NodeGrammar
   pg : Option PGrammar := none
   rawpg : Option PGrammar := none
+  /-- C20: the module generated under each option combination (memoised: computed once per process). -/
+  optNgs : List (String × Thunk NodeGrammar) := []
 
 def toFlag : String → Flag
   | "0" => .zero
@@ -116,7 +123,8 @@ def toGrammar : Sexp → Option GrammarEntry
       | _ => none
     let opt : PGrammar := rs.map fun (n, k, eo, _) => { name := n, kind := k, expr := eo }
     let raw : PGrammar := rs.map fun (n, k, _, er) => { name := n, kind := k, expr := er }
-    some { gid := gid, ng := gen opt, pg := some opt, rawpg := some raw }
+    some { gid := gid, ng := gen opt, pg := some opt, rawpg := some raw,
+           optNgs := ["00", "01", "10", "11"].map fun bits => (bits, Thunk.mk fun _ => genWith (optsConfig bits) opt raw) }
   | .list (.atom "nodegrammar" :: .atom gid :: .list [.atom "skipped", sk] :: rules) =>
     let rs : List RuleDef := rules.filterMap fun
       | .list [.atom "rule", .atom name, .atom atom, .atom emit, .atom boxed, body] =>
@@ -226,10 +234,6 @@ def runCase (ge : GrammarEntry) (rule entry form : String) (a b : Nat) (input : 
 
 /-! ### option combinations (C20): the module `genWith cfg optimized raw` instead of `gen optimized` -/
 
-def optsConfig (bits : String) : Config :=
-  let cs := bits.toList
-  { box_only_if_needed := cs[0]? == some '1', pest_optimizer := cs[1]? != some '0' }
-
 /-- `opts <b><o> <gid> boxed` prints the `$boxed` argument of every rule;
 `opts <b><o> <gid> <rule> <entry> <form> <a> <b> <hex>` runs a case on the module generated under
 `box_only_if_needed = b`, `pest_optimizer = o` (`spec=` then refers to the AST that was walked). -/
@@ -242,7 +246,9 @@ def runOpts (gs : List GrammarEntry) (bits : String) (rest : List String) : Stri
       match ge.pg, ge.rawpg with
       | some o, some r =>
         let cfg := optsConfig bits
-        let ng := genWith cfg o r
+        let ng := match ge.optNgs.find? (·.1 = bits) with
+          | some (_, t) => t.get
+          | none => genWith cfg o r
         match tail with
         | ["boxed"] =>
           "boxed=" ++ ",".intercalate ((ng.rules.drop 1).map fun d => d.name ++ ":" ++ toString d.boxed)
